@@ -291,6 +291,7 @@ func runC08(c *Ctx) {
 	jsonControlBound(c)
 	nilListIsNullOnly(c)
 	layoutAgreement(c)
+	encodeErrorsKept(c)
 
 	// ---------------------------------------------------------------------------------------------
 	c.R.Rule("utf8", "the quoting sink (writeQuotedString) reaches a UTF-8 validity operation (utf8.RuneError comparison, utf8.Valid*, strings.ToValidUTF8), and its replacement branch depends on the decoded width so that an encoded U+FFFD is preserved", 2)
